@@ -116,7 +116,7 @@ impl Prop for C12 {
                 },
                 Stage {
                     name: "reregister".into(),
-                    len: rereg_histories().len() as u64,
+                    len: 2 * rereg_histories().len() as u64,
                     chunk: 1,
                     timeout: Duration::from_secs(60),
                     what: "registration histories of one infix operator (fresh process each), round trip after every step".into(),
@@ -158,9 +158,12 @@ impl Prop for C12 {
             let hs = rereg_histories();
             for i in a..b {
             out.idx = Some(i);
-                run_rereg(&hs[i as usize], out);
-                out.count("states", hs[i as usize].len() as u64);
-                out.count("transitions", hs[i as usize].len() as u64);
+                // second half: the same histories with every re-registration (all steps but the
+                // first) made by another, joined thread
+                let (h, xthread) = (&hs[i as usize % hs.len()], i as usize >= hs.len());
+                run_rereg(h, xthread, out);
+                out.count("states", h.len() as u64);
+                out.count("transitions", h.len() as u64);
             }
             return;
         }
@@ -179,7 +182,8 @@ impl Prop for C12 {
             return show(&parse::print(&programs(tier)[i as usize], &ops, Parens::Minimal));
         }
         if stage == 2 {
-            return format!("{:?}", rereg_histories()[i as usize]);
+            let hs = rereg_histories();
+            return format!("{:?}{}", hs[i as usize % hs.len()], if i as usize >= hs.len() { " re-registrations by another thread" } else { "" });
         }
         show(&seqs(tier).spaced(i))
     }
@@ -187,7 +191,7 @@ impl Prop for C12 {
 
 const REREG: &[(i32, bool)] = &[(105, true), (105, false), (125, true), (125, false), (121, true), (111, false)];
 
-fn rereg_histories() -> Vec<Vec<(i32, bool)>> {
+pub fn rereg_histories() -> Vec<Vec<(i32, bool)>> {
     let mut v = Vec::new();
     for a in REREG {
         v.push(vec![*a]);
@@ -205,7 +209,7 @@ fn rereg_histories() -> Vec<Vec<(i32, bool)>> {
     v
 }
 
-fn run_rereg(h: &[(i32, bool)], out: &mut WorkerOut) {
+fn run_rereg(h: &[(i32, bool)], xthread: bool, out: &mut WorkerOut) {
     use crate::gen::{relabel, trees_by_size, Kind};
     use crate::model::lex::InfixInfo;
     use expression_engine::{InfixOpAssociativity, InfixOpType};
@@ -215,13 +219,13 @@ fn run_rereg(h: &[(i32, bool)], out: &mut WorkerOut) {
     let rot = crate::gen::leaf_rotation();
     let mut ops = OpSet::builtin();
     for (step, (prec, left)) in h.iter().enumerate() {
-        expression_engine::register_infix_op(
-            "xop",
-            *prec,
-            InfixOpType::CALC,
-            if *left { InfixOpAssociativity::LEFT } else { InfixOpAssociativity::RIGHT },
-            Arc::new(|a, _| Ok(a)),
-        );
+        let (p, l) = (*prec, *left);
+        let reg = move || expression_engine::register_infix_op("xop", p, InfixOpType::CALC, if l { InfixOpAssociativity::LEFT } else { InfixOpAssociativity::RIGHT }, Arc::new(|a, _| Ok(a)));
+        if xthread && step > 0 {
+            std::thread::spawn(reg).join().expect("registration thread");
+        } else {
+            reg();
+        }
         ops.infix.insert("xop".into(), InfixInfo { prec: *prec, left: *left, setter: false });
         let mut tmp = WorkerOut::default();
         for t in trees[1].iter().chain(trees[2].iter()).chain(trees[3].iter()) {
@@ -234,7 +238,7 @@ fn run_rereg(h: &[(i32, bool)], out: &mut WorkerOut) {
         let fails = std::mem::take(&mut tmp.fails);
         out.merge(tmp);
         for (k, (f, _)) in fails {
-            out.fail(k, format!("reregister|{:?}", h), format!("after registration {} of the history, {}: {}", step + 1, f.case, f.detail));
+            out.fail(k, format!("reregister|{:?}{}", h, if xthread { " re-registrations by another thread" } else { "" }), format!("after registration {} of the history, {}: {}", step + 1, f.case, f.detail));
         }
     }
 }
